@@ -1,4 +1,5 @@
 """C12 — the circuit boolean optimizer returns an equivalent, no larger circuit."""
+import random
 import sys
 
 import z3
@@ -82,8 +83,9 @@ def judge(label, qc, st, solver):
 
 
 def alpha_i():
-    """classical alphabet on 3 qubits plus the identity gate"""
-    return circorp.alphabet(3, h=False) + [["i", [0]], ["i", [1]]]
+    """classical alphabet on 3 qubits plus the identity gate and Hadamards (sections that end
+    before the end of the circuit)"""
+    return circorp.alphabet(3, h=True) + [["i", [0]], ["i", [1]]]
 
 
 def alpha_4():
@@ -151,6 +153,16 @@ def make_items(tier, seed):
         {"nq": 3, "gates": [["x", [1]], ["barrier", []], ["cx", [1, 0]], ["barrier", []], ["cx", [1, 0]], ["z", [0]], ["x", [1]]]},
     ]
     items.append({"fam": "special", "circuits": special})
+    # long classical runs: sections of 16..40 gates that reduce to the identity or to plain X gates
+    rl = random.Random(1616)
+    longs = []
+    for n in (15, 16, 17, 18, 20, 24, 31, 32, 33, 40):
+        longs.append({"nq": 3, "gates": [["x", [0]]] * n + [["h", [0]]]})
+        longs.append({"nq": 3, "gates": [["h", [1]]] + [["x", [i % 2]] for i in range(n)] + [["h", [0]], ["x", [0]]]})
+        pal = [rl.choice([["x", [0]], ["x", [1]], ["cx", [0, 1]], ["cx", [1, 2]], ["ccx", [0, 1, 2]]]) for _ in range(n // 2)]
+        longs.append({"nq": 3, "gates": pal + ([["x", [2]]] if n % 2 else []) + pal[::-1] + [["h", [2]], ["cx", [2, 0]]]})
+    for i in range(0, len(longs), 6):
+        items.append({"fam": "long-runs", "circuits": longs[i : i + 6]})
     from .. import corpus
 
     progs = [p[1] for p in corpus.u_ctl()[:: (2 if tier == "thorough" else 7)] if corpus.size_ok(p[1], 8, 50)]
